@@ -5,10 +5,12 @@ import (
 	"encoding/hex"
 	"errors"
 	"fmt"
+	"hash/fnv"
 	"math"
 	"math/rand"
 	"os"
 	"path/filepath"
+	"sort"
 	"strconv"
 	"strings"
 	"sync"
@@ -251,8 +253,9 @@ func c15EncodeAst(ast *syntax.Ast) (string, error) {
 			e.tok(c15Key(h[0]), c15Key(h[1]))
 		}
 	}
-	e.tok("T", strconv.Itoa(len(ast.StructTypes)))
-	for _, st := range ast.StructTypes {
+	structs := c15StructTable(ast)
+	e.tok("T", strconv.Itoa(len(structs)))
+	for _, st := range structs {
 		e.tok(c15Key(st.Id), strconv.Itoa(len(st.Members)))
 		for _, m := range st.Members {
 			t := m.Tname
@@ -1102,7 +1105,8 @@ func c15Edits() []c15Edit {
 		"reorder-declarations": "-", "reorder-parameters": "-", "reorder-bindings": "-", "unused-callable": "-", "number-spelling": "-",
 		"filetype-rename": "fileTypeName", "volatile-flag": "volatile", "stage-renamed-call-aliased": "calleeName",
 		"stage-src": "stageSrc", "stage-resources": "resources", "stage-retain": "retain", "chunk-params": "chunkParams",
-		"parameter-help": "help", "stage-output-filename": "outName", "pipeline-retain": "retain", "struct-definition": "structDef"}
+		"parameter-help": "help", "stage-output-filename": "outName", "pipeline-retain": "retain"}
+	E = append(E, c15TypeCatalogueEdits()...)
 	for i := range E {
 		E[i].kinds = expect[E[i].name]
 	}
@@ -1436,6 +1440,8 @@ func runC15(c *Ctx) {
 		}
 		// literal-shrinking / -growing classes (own original: harness/c15_lit.go)
 		pairs = append(pairs, c15LiteralPairs(c, p, newDir)...)
+		// struct definitions changing under an unchanged name (own original: harness/c15_types.go)
+		pairs = append(pairs, c15StructPairs(c, p, newDir)...)
 		// the tolerance class
 		q := p.clone()
 		if desc, inTop, ok := c15UlpEdit(c.Rng, q); ok {
@@ -1471,7 +1477,7 @@ func runC15(c *Ctx) {
 			continue
 		}
 		f := strings.Fields(reps[i])
-		if len(f) != 5 {
+		if len(f) != 6 {
 			r.violate(Violation{Kind: "correspondence", Key: "C15:driver-parse", What: "driver could not parse the encoded AST: " + reps[i],
 				Input: input, Broken: "correspondence C15.equiv (encoding)"})
 			continue
@@ -1485,17 +1491,17 @@ func runC15(c *Ctx) {
 				What:  fmt.Sprintf("the model's full meaning differs in the ignored aspects {%s}, the edit class changes {%s}: %s", f[4], pr.kinds, pr.desc),
 				Input: input, Model: f[4], Expect: pr.kinds, Broken: "Martian.Equiv.meaning (ignored component) vs edit catalogue"})
 		}
-		if pr.edit == "struct-definition" {
-			// only the struct's NAME is compared: a changed definition is accepted
-			if fmt.Sprint(gab) != f[0] {
+		if key, ok := c15StricterThanProperty[pr.edit]; ok {
+			// cosmetic for the property, compared by the code: model = code, the refusal is a (known) finding
+			if fmt.Sprint(gab) != f[0] || gab != gba {
 				r.violate(Violation{Kind: "correspondence", Key: "C15:equiv-model-mismatch:" + pr.edit,
-					What: "Ast.EquivalentCall differs from the Lean model: " + pr.desc, Input: input, Impl: gab, Model: f[0],
+					What: "Ast.EquivalentCall differs from the Lean model (or is asymmetric): " + pr.desc, Input: input, Impl: []bool{gab, gba}, Model: f[0],
 					Broken: "correspondence C15.equiv"})
 			}
-			if gab || gba {
-				r.violate(Violation{Kind: "property", Key: "C15:struct-definition-ignored",
-					What:  "a changed struct definition (a parameter's type changed under an unchanged type name) is accepted as equivalent: " + pr.desc,
-					Input: input, Impl: []bool{gab, gba}, Expect: false})
+			if !gab || !gba {
+				r.violate(Violation{Kind: "property", Key: key,
+					What:  "an edit the property counts as cosmetic is refused: " + pr.desc,
+					Input: input, Impl: []bool{gab, gba}, Expect: true})
 			}
 			continue
 		}
@@ -1551,7 +1557,7 @@ func runC15(c *Ctx) {
 			break
 		}
 		pr := pairs[i]
-		if pr.inTop || pr.edit == "float-ulp" || pr.edit == "struct-definition" || pr.pa == nil {
+		if pr.inTop || pr.edit == "float-ulp" || c15StricterThanProperty[pr.edit] != "" || pr.pa == nil {
 			continue // the top-level invocation text itself must be byte-identical (see below)
 		}
 		done++
@@ -1568,11 +1574,25 @@ func runC15(c *Ctx) {
 			break
 		}
 		pr := pairs[i]
-		if pr.inTop || !pr.semantic || pr.edit == "float-ulp" || pr.edit == "struct-definition" || pr.pa == nil {
+		if pr.inTop || !pr.semantic || pr.edit == "float-ulp" || pr.pa == nil {
 			continue
 		}
 		crashed++
 		c15CrashDuringInvoke(c, rt, pr, crashed)
+	}
+	// the lock file cannot be created / two concurrent starts (harness/c15_lockerr.go)
+	for _, pr := range pairs {
+		if pr.pa != nil {
+			nle, nsr := 2, 15
+			if c.Thorough {
+				nle, nsr = 10, 200
+			}
+			for k := 0; k < nle; k++ {
+				c15LockCreateError(c, rt, pr, k)
+			}
+			c15StartRace(c, rt, pr, nsr)
+			break
+		}
 	}
 	// the invocation text itself: a cosmetic change there is refused by the byte comparison
 	for _, pr := range pairs {
@@ -1670,8 +1690,38 @@ func c15EndToEnd(c *Ctx, rt *core.Runtime, pr *c15Pair, n int) {
 	}
 	ps.Unlock() // first mrp exits
 	// re-attach with the edited sources
+	snapBefore := c15Snapshot(psdir)
 	p3, err := c15Attach(rt, psdir, pr.b, false)
 	accepted := err == nil
+	if !accepted {
+		// a refused attach changes nothing: the files of the pipestance are as before, the same
+		// attempt is refused again, and the original sources still attach
+		if d := c15SnapshotDiff(snapBefore, c15Snapshot(psdir)); d != "" {
+			r.violate(Violation{Kind: "property", Key: "C15:refused-attach-modified-pipestance",
+				What:  "a refused re-attach modified the pipestance directory: " + d + " (" + pr.desc + ")",
+				Input: input, Broken: "theorem Props.C15.lts_refused_attach_changes_nothing (files)"})
+		}
+		var ie0 *core.PipestanceInvocationError
+		if errors.As(err, &ie0) {
+			for attempt := 2; attempt <= 3; attempt++ {
+				if p4, err4 := c15Attach(rt, psdir, pr.b, false); err4 == nil {
+					r.violate(Violation{Kind: "property", Key: "C15:refused-attach-accepted-on-retry",
+						What:  fmt.Sprintf("the re-attach that was refused is ACCEPTED when the same command is run again (attempt %d): %s", attempt, pr.desc),
+						Input: input, Impl: "accepted", Expect: "refused"})
+					p4.Unlock()
+					break
+				}
+			}
+			if p5, err5 := c15Attach(rt, psdir, pr.a, false); err5 != nil {
+				r.violate(Violation{Kind: "property", Key: "C15:original-refused-after-refused-attach",
+					What:  "after a refused re-attach the ORIGINAL sources no longer attach: " + err5.Error(),
+					Input: input, Impl: "refused", Expect: "accepted"})
+			} else {
+				p5.Unlock()
+			}
+			r.hist("e2e-refused-attach-retried")
+		}
+	}
 	var ie *core.PipestanceInvocationError
 	if err != nil && !errors.As(err, &ie) {
 		r.hist("e2e-reattach-rejected-by-call-graph-builder")
@@ -1704,6 +1754,51 @@ func c15EndToEnd(c *Ctx, rt *core.Runtime, pr *c15Pair, n int) {
 			What: "a re-attach refused for a changed invocation leaves the pipestance locked", Input: input})
 		os.Remove(filepath.Join(psdir, "_lock"))
 	}
+}
+
+// c15Snapshot: name -> size:content-hash of the regular files directly in the pipestance directory
+// (the top-level metadata files), `_lock` excluded.
+func c15Snapshot(dir string) map[string]string {
+	out := map[string]string{}
+	ents, err := os.ReadDir(dir)
+	if err != nil {
+		return out
+	}
+	for _, e := range ents {
+		if e.IsDir() || e.Name() == "_lock" {
+			continue
+		}
+		if b, err := os.ReadFile(filepath.Join(dir, e.Name())); err == nil {
+			h := fnv.New64a()
+			h.Write(b)
+			out[e.Name()] = fmt.Sprintf("%d:%x", len(b), h.Sum64())
+		}
+	}
+	return out
+}
+
+func c15SnapshotDiff(a, b map[string]string) string {
+	var names []string
+	for k := range a {
+		names = append(names, k)
+	}
+	for k := range b {
+		if _, ok := a[k]; !ok {
+			names = append(names, k)
+		}
+	}
+	sort.Strings(names)
+	for _, k := range names {
+		switch {
+		case a[k] == "":
+			return "file " + k + " appeared"
+		case b[k] == "":
+			return "file " + k + " disappeared"
+		case a[k] != b[k]:
+			return "file " + k + " was rewritten"
+		}
+	}
+	return ""
 }
 
 func c15LockHistory(c *Ctx, rt *core.Runtime, pr *c15Pair, n int) {
